@@ -88,6 +88,7 @@ func TestC04(t *testing.T) {
 		}
 		m, info := rgen.GenMsg(t, o)
 		c := CaseRT{Zone: zone, Msg: m, Primers: genPrimers(t, zone, m)}
+		c.Env = genEnv(t)
 		var cls []string
 		if len(c.Primers) > 0 {
 			cls = append(cls, "after-earlier-calls")
